@@ -74,7 +74,7 @@ def _ksizes(t):
     return {m.group(1): int(m.group(2)) for m in re.finditer(r"impl KmerSize for (K\d+) \{[^}]*?fn K\(\) -> usize \{\s*(\d+)\s*\}", t, re.S)}
 
 @item("shipped", "List (String × Nat × Nat × Bool)",
-      '[("Kmer64",128,64,false),("Kmer48",128,48,true),("Kmer40",128,40,true),("Kmer32",64,32,false),("Kmer30",64,30,true),("Kmer24",64,24,true),("Kmer20",64,20,true),("Kmer16",32,16,false),("Kmer15",32,15,true),("Kmer14",32,14,true),("Kmer12",32,12,true),("Kmer10",32,10,true),("Kmer8",16,8,false),("Kmer6",16,6,true),("Kmer5",16,5,true),("Kmer4",8,4,false),("Kmer3",8,3,true),("Kmer2",8,2,true),("K31",64,31,true),("VK4",8,4,true),("V16K4",16,4,true),("V128K31",128,31,true)]',
+      '[("Kmer64",128,64,false),("Kmer48",128,48,true),("Kmer40",128,40,true),("Kmer32",64,32,false),("Kmer30",64,30,true),("Kmer24",64,24,true),("Kmer20",64,20,true),("Kmer16",32,16,false),("Kmer15",32,15,true),("Kmer14",32,14,true),("Kmer12",32,12,true),("Kmer10",32,10,true),("Kmer8",16,8,false),("Kmer6",16,6,true),("Kmer5",16,5,true),("Kmer4",8,4,false),("Kmer3",8,3,true),("Kmer2",8,2,true),("K31",64,31,true),("VK4",8,4,true),("V16K4",16,4,true),("V128K31",128,31,true),("V128K33",128,33,true),("V128K41",128,41,true),("V128K63",128,63,true)]',
       "k-mer types: (name, storage bits, K, is VarIntKmer); the 18 aliases of kmer.rs plus VarIntKmer<u64,K31>, <u8,K4>, <u16,K4>, <u128,K31>")
 def _():
     t = src("kmer.rs")
@@ -103,6 +103,10 @@ def _():
     out.append(("VK4", 8, ks["K4"], "true"))
     out.append(("V16K4", 16, ks["K4"], "true"))
     out.append(("V128K31", 128, ks["K31"], "true"))
+    # sizes a user may define (KmerSize is a public trait; defined in harness/src/util.rs): odd K beyond 32 on u128 storage
+    out.append(("V128K33", 128, 33, "true"))
+    out.append(("V128K41", 128, 41, "true"))
+    out.append(("V128K63", 128, 63, "true"))
     return "[" + ",".join('("%s",%d,%d,%s)' % o for o in out) + "]"
 
 def _ladder(ty):
